@@ -81,6 +81,8 @@ type Unit struct {
 	mayPanic     bool
 	lemmaMode    bool
 	roGlobals    []string
+	axioms       []*Term
+	privateObjs  map[int64]bool
 	mu           sync.Mutex
 	failAsserts  map[*Obligation][]*Term
 	mapBases     map[string]*MapNode
@@ -185,6 +187,7 @@ type Frame struct {
 	hdr       map[*ssa.BasicBlock]*loopInfo
 	order     []*ssa.BasicBlock
 	entry     BState
+	loopLocalWrites []localRegion
 	probe     *probeRec // non-nil while a loop body is executed only to collect back-edge states
 }
 
@@ -263,15 +266,15 @@ func (u *Unit) strConstTerm(s string) *Term {
 	}
 	t := u.tb.Sym(fmt.Sprintf("str!%d", len(u.strConst)), StrSort)
 	u.strConst[s] = t
-	// facts: length and bytes
-	u.addFact(u.tb.Eq(u.slen(t), u.tb.BV(64, int64(len(s)))))
+	// axioms (available to every query, never rolled back): length and bytes
+	u.axioms = append(u.axioms, u.tb.Eq(u.slen(t), u.tb.BV(64, int64(len(s)))))
 	for i := 0; i < len(s) && i < 256; i++ {
-		u.addFact(u.tb.Eq(u.tb.UF("sbyte", BV8, t, u.tb.BV(64, int64(i))), u.tb.BV(8, int64(s[i]))))
+		u.axioms = append(u.axioms, u.tb.Eq(u.tb.UF("sbyte", BV8, t, u.tb.BV(64, int64(i))), u.tb.BV(8, int64(s[i]))))
 	}
 	// distinct from the other constants
 	for o, ot := range u.strConst {
 		if o != s {
-			u.addFact(u.tb.Not(u.tb.Eq(t, ot)))
+			u.axioms = append(u.axioms, u.tb.Not(u.tb.Eq(t, ot)))
 		}
 	}
 	return t
@@ -327,7 +330,10 @@ func (u *Unit) validFacts(t types.Type, slots []*Term, objBound *Term) []*Term {
 	mark := func(t *Term) {
 		if markLow && !tb.isLow(t) {
 			// the solver must know the bound too: emit it before the term builder starts folding it away
-			out = append(out, tb.rawUlt(t, objBound))
+			if t.hasBV {
+				return
+			}
+			u.axioms = append(u.axioms, tb.rawUlt(t, objBound)) // unconditional: kept across probe roll-backs
 			tb.MarkLow(t)
 		}
 	}
@@ -368,7 +374,9 @@ func (u *Unit) validFacts(t types.Type, slots []*Term, objBound *Term) []*Term {
 			i += 2
 		case *types.Interface:
 			mark(slots[i+1])
-			out = append(out, tb.Ult(slots[i+1], objBound), tb.Ult(slots[i+2], lim))
+			out = append(out, tb.Ult(slots[i+1], objBound), tb.Ult(slots[i+2], lim),
+				// the nil interface is (0,0,0)
+				tb.Implies(tb.Eq(slots[i], tb.BV(32, 0)), tb.And(tb.Eq(slots[i+1], tb.BV(32, 0)), tb.Eq(slots[i+2], tb.BV(64, 0)))))
 			i += 3
 		case *types.Struct:
 			for k := 0; k < ut.NumFields(); k++ {
